@@ -47,24 +47,24 @@ type CallerSpec struct {
 }
 
 type Scenario struct {
-	ID       string                `json:"id"`
-	Signal   string                `json:"signal"`
-	S        int                   `json:"S"`
-	M        int                   `json:"M"`
-	T        int                   `json:"T"` // ticks
-	K        int                   `json:"K"`
-	L        int                   `json:"L"`
-	Early    bool                  `json:"early"`
-	Keys     []string              `json:"keys"`
-	Callers  map[string]CallerSpec `json:"callers"`
-	Steps    [][]any               `json:"steps"`
-	Gated    bool                  `json:"gated"`
-	Hold     bool                  `json:"hold"`     // the sink holds every export until released
-	Honour   bool                  `json:"honour"`   // the sink fails an export whose context is done
-	Results  []string              `json:"results"`  // default results for exports released by the drain ("ok"/"fail"), cycled
-	Seed     int64                 `json:"seed"`     // gate-release order of the drain
-	NoVal    bool                  `json:"novalidate"` // build the config without Validate()
-	Expect   map[string]any        `json:"expect,omitempty"`
+	ID      string                `json:"id"`
+	Signal  string                `json:"signal"`
+	S       int                   `json:"S"`
+	M       int                   `json:"M"`
+	T       int                   `json:"T"` // ticks
+	K       int                   `json:"K"`
+	L       int                   `json:"L"`
+	Early   bool                  `json:"early"`
+	Keys    []string              `json:"keys"`
+	Callers map[string]CallerSpec `json:"callers"`
+	Steps   [][]any               `json:"steps"`
+	Gated   bool                  `json:"gated"`
+	Hold    bool                  `json:"hold"`       // the sink holds every export until released
+	Honour  bool                  `json:"honour"`     // the sink fails an export whose context is done
+	Results []string              `json:"results"`    // default results for exports released by the drain ("ok"/"fail"), cycled
+	Seed    int64                 `json:"seed"`       // gate-release order of the drain
+	NoVal   bool                  `json:"novalidate"` // build the config without Validate()
+	Expect  map[string]any        `json:"expect,omitempty"`
 }
 
 // ---------------------------------------------------------------- runner
@@ -431,7 +431,7 @@ func (k *sink) Capabilities() consumer.Capabilities { return consumer.Capabiliti
 func (k *sink) ConsumeTraces(ctx context.Context, d ptrace.Traces) error {
 	return k.consume(ctx, d)
 }
-func (k *sink) ConsumeLogs(ctx context.Context, d plog.Logs) error       { return k.consume(ctx, d) }
+func (k *sink) ConsumeLogs(ctx context.Context, d plog.Logs) error          { return k.consume(ctx, d) }
 func (k *sink) ConsumeMetrics(ctx context.Context, d pmetric.Metrics) error { return k.consume(ctx, d) }
 
 func (k *sink) consume(ctx context.Context, data any) error {
@@ -598,6 +598,29 @@ func runScenario(t *testing.T, sc *Scenario, tr int, out *bufio.Writer) {
 		"x": sc.Signal, "c": fmt.Sprintf("early=%v multi=%v gated=%v hold=%v honour=%v valid=%v", sc.Early, len(sc.Keys) > 0, sc.Gated, sc.Hold, sc.Honour, valid),
 		"early": b2i(sc.Early), "multi": b2i(len(sc.Keys) > 0), "honour": b2i(sc.Honour), "q": runtime.NumCPU(),
 	}
+	cl := []any{}
+	{
+		cn := make([]string, 0, len(sc.Callers))
+		for c := range sc.Callers {
+			cn = append(cn, c)
+		}
+		sort.Strings(cn)
+		for _, c := range cn {
+			cs := sc.Callers[c]
+			its := 0
+			for _, rs := range cs.Shape {
+				for _, ss := range rs {
+					for _, g := range ss {
+						if g > 0 {
+							its += g
+						}
+					}
+				}
+			}
+			cl = append(cl, []any{c, its, cs.Ctx, comboString(r.keys, func(k string) []string { return mdGet(cs.MD, k) })})
+		}
+	}
+	hdr["l"] = cl
 	r.log("Begin", hdr)
 	if !valid {
 		r.log("End", map[string]any{"k": "invalid-config"})
@@ -910,6 +933,12 @@ func runScenario(t *testing.T, sc *Scenario, tr int, out *bufio.Writer) {
 		}
 		synctest.Wait()
 	}
+	// nothing may stay parked at a gate when the bubble ends (e.g. the loop of a shard created by a
+	// call that raced Shutdown: it sees the closed shutdown channel and exits once released)
+	r.mu.Lock()
+	r.freeRun = true
+	r.mu.Unlock()
+	r.releaseAll()
 	done := make(chan struct{})
 	go func() { wg.Wait(); close(done) }()
 	synctest.Wait()
